@@ -1,1 +1,514 @@
-//! Scripted provider (raw TCP HTTP/1.1) — built later.
+//! Scripted provider: a raw-TCP HTTP/1.1 server that controls the exact bytes and chunking of
+//! each response and records every request. Used in-process by C07/C15/C16 (and others) and as a
+//! stand-alone process (`rv provider --script F --record R --port-file P`) next to the real
+//! `rip serve` for C19.
+
+use serde_json::{json, Value};
+use std::io::{Read, Write};
+use std::net::{SocketAddr, TcpListener, TcpStream};
+use std::sync::atomic::{AtomicBool, AtomicUsize, Ordering};
+use std::sync::{Arc, Mutex};
+use std::time::Duration;
+
+#[derive(Clone, Debug)]
+pub struct Recorded {
+    pub index: usize,
+    pub method: String,
+    pub path: String,
+    pub headers: Vec<(String, String)>,
+    pub body: Vec<u8>,
+}
+
+impl Recorded {
+    pub fn json(&self) -> Option<Value> {
+        serde_json::from_slice(&self.body).ok()
+    }
+    pub fn header(&self, name: &str) -> Option<&str> {
+        self.headers
+            .iter()
+            .find(|(k, _)| k.eq_ignore_ascii_case(name))
+            .map(|(_, v)| v.as_str())
+    }
+}
+
+#[derive(Clone, Debug)]
+pub struct Reply {
+    pub status: u16,
+    pub content_type: String,
+    pub body: Vec<u8>,
+    /// sizes of the HTTP chunks the body is sent in; the remainder goes out as one last chunk.
+    /// Empty = whole body as one chunk.
+    pub chunks: Vec<usize>,
+    /// pause between chunks (microseconds)
+    pub pause_us: u64,
+    /// drop the connection after this many body bytes (mid-stream failure)
+    pub reset_after: Option<usize>,
+    /// send headers only and then close (no body at all, not even the terminator)
+    pub headers_only: bool,
+    /// use Content-Length instead of chunked encoding
+    pub content_length: bool,
+    /// append the request body to the response body (error bodies that echo the request)
+    pub echo_request: bool,
+    /// delay before answering (milliseconds)
+    pub delay_ms: u64,
+}
+
+impl Reply {
+    pub fn sse(body: impl Into<Vec<u8>>) -> Reply {
+        Reply {
+            status: 200,
+            content_type: "text/event-stream".to_string(),
+            body: body.into(),
+            chunks: Vec::new(),
+            pause_us: 0,
+            reset_after: None,
+            headers_only: false,
+            content_length: false,
+            echo_request: false,
+            delay_ms: 0,
+        }
+    }
+    pub fn status(status: u16, body: impl Into<Vec<u8>>) -> Reply {
+        Reply {
+            status,
+            content_type: "application/json".to_string(),
+            content_length: true,
+            ..Reply::sse(body)
+        }
+    }
+    pub fn chunked(mut self, chunks: Vec<usize>, pause_us: u64) -> Reply {
+        self.chunks = chunks;
+        self.pause_us = pause_us;
+        self
+    }
+}
+
+pub type Script = Arc<dyn Fn(&Recorded) -> Reply + Send + Sync>;
+
+pub struct Provider {
+    pub addr: SocketAddr,
+    recorded: Arc<Mutex<Vec<Recorded>>>,
+    stop: Arc<AtomicBool>,
+    thread: Option<std::thread::JoinHandle<()>>,
+}
+
+impl Provider {
+    pub fn start(script: Script) -> Provider {
+        Provider::start_on("127.0.0.1:0", script)
+    }
+
+    pub fn start_on(bind: &str, script: Script) -> Provider {
+        let listener = TcpListener::bind(bind).expect("bind provider");
+        let addr = listener.local_addr().expect("addr");
+        listener.set_nonblocking(true).expect("nonblocking");
+        let recorded: Arc<Mutex<Vec<Recorded>>> = Arc::new(Mutex::new(Vec::new()));
+        let stop = Arc::new(AtomicBool::new(false));
+        let counter = Arc::new(AtomicUsize::new(0));
+        let rec2 = recorded.clone();
+        let stop2 = stop.clone();
+        let thread = std::thread::spawn(move || {
+            while !stop2.load(Ordering::Relaxed) {
+                match listener.accept() {
+                    Ok((stream, _)) => {
+                        let script = script.clone();
+                        let rec = rec2.clone();
+                        let counter = counter.clone();
+                        std::thread::spawn(move || {
+                            let _ = handle(stream, script, rec, counter);
+                        });
+                    }
+                    Err(ref e) if e.kind() == std::io::ErrorKind::WouldBlock => {
+                        std::thread::sleep(Duration::from_millis(1));
+                    }
+                    Err(_) => break,
+                }
+            }
+        });
+        Provider {
+            addr,
+            recorded,
+            stop,
+            thread: Some(thread),
+        }
+    }
+
+    pub fn endpoint(&self) -> String {
+        format!("http://{}/v1/responses", self.addr)
+    }
+
+    pub fn requests(&self) -> Vec<Recorded> {
+        self.recorded.lock().unwrap().clone()
+    }
+
+    pub fn request_count(&self) -> usize {
+        self.recorded.lock().unwrap().len()
+    }
+}
+
+impl Drop for Provider {
+    fn drop(&mut self) {
+        self.stop.store(true, Ordering::Relaxed);
+        if let Some(t) = self.thread.take() {
+            let _ = t.join();
+        }
+    }
+}
+
+fn read_request(stream: &mut TcpStream) -> std::io::Result<Option<(String, String, Vec<(String, String)>, Vec<u8>)>> {
+    stream.set_read_timeout(Some(Duration::from_secs(10)))?;
+    let mut buf: Vec<u8> = Vec::new();
+    let mut tmp = [0u8; 8192];
+    let header_end;
+    loop {
+        if let Some(pos) = buf.windows(4).position(|w| w == b"\r\n\r\n") {
+            header_end = pos + 4;
+            break;
+        }
+        let n = stream.read(&mut tmp)?;
+        if n == 0 {
+            return Ok(None);
+        }
+        buf.extend_from_slice(&tmp[..n]);
+        if buf.len() > 4 * 1024 * 1024 {
+            return Ok(None);
+        }
+    }
+    let head = String::from_utf8_lossy(&buf[..header_end]).to_string();
+    let mut lines = head.split("\r\n");
+    let request_line = lines.next().unwrap_or("");
+    let mut parts = request_line.split(' ');
+    let method = parts.next().unwrap_or("").to_string();
+    let path = parts.next().unwrap_or("").to_string();
+    let mut headers = Vec::new();
+    let mut content_length = 0usize;
+    let mut chunked = false;
+    for l in lines {
+        if let Some((k, v)) = l.split_once(':') {
+            let k = k.trim().to_string();
+            let v = v.trim().to_string();
+            if k.eq_ignore_ascii_case("content-length") {
+                content_length = v.parse().unwrap_or(0);
+            }
+            if k.eq_ignore_ascii_case("transfer-encoding") && v.to_ascii_lowercase().contains("chunked") {
+                chunked = true;
+            }
+            headers.push((k, v));
+        }
+    }
+    let mut body = buf[header_end..].to_vec();
+    if chunked {
+        // read until terminating chunk, then decode
+        loop {
+            if body.windows(5).any(|w| w == b"0\r\n\r\n") {
+                break;
+            }
+            let n = stream.read(&mut tmp)?;
+            if n == 0 {
+                break;
+            }
+            body.extend_from_slice(&tmp[..n]);
+        }
+        body = decode_chunked(&body);
+    } else {
+        while body.len() < content_length {
+            let n = stream.read(&mut tmp)?;
+            if n == 0 {
+                break;
+            }
+            body.extend_from_slice(&tmp[..n]);
+        }
+        body.truncate(content_length);
+    }
+    Ok(Some((method, path, headers, body)))
+}
+
+fn decode_chunked(raw: &[u8]) -> Vec<u8> {
+    let mut out = Vec::new();
+    let mut i = 0;
+    while i < raw.len() {
+        let Some(eol) = raw[i..].windows(2).position(|w| w == b"\r\n") else {
+            break;
+        };
+        let size_str = String::from_utf8_lossy(&raw[i..i + eol]).to_string();
+        let size = usize::from_str_radix(size_str.split(';').next().unwrap_or("0").trim(), 16).unwrap_or(0);
+        i += eol + 2;
+        if size == 0 {
+            break;
+        }
+        let end = (i + size).min(raw.len());
+        out.extend_from_slice(&raw[i..end]);
+        i = end + 2;
+    }
+    out
+}
+
+fn handle(
+    mut stream: TcpStream,
+    script: Script,
+    recorded: Arc<Mutex<Vec<Recorded>>>,
+    counter: Arc<AtomicUsize>,
+) -> std::io::Result<()> {
+    stream.set_nodelay(true)?;
+    stream.set_nonblocking(false)?;
+    let Some((method, path, headers, body)) = read_request(&mut stream)? else {
+        return Ok(());
+    };
+    let rec = {
+        let mut g = recorded.lock().unwrap();
+        let index = counter.fetch_add(1, Ordering::SeqCst);
+        let r = Recorded {
+            index,
+            method,
+            path,
+            headers,
+            body,
+        };
+        g.push(r.clone());
+        r
+    };
+    let reply = script(&rec);
+    if reply.delay_ms > 0 {
+        std::thread::sleep(Duration::from_millis(reply.delay_ms));
+    }
+    let mut body = reply.body.clone();
+    if reply.echo_request {
+        body.extend_from_slice(&rec.body);
+    }
+    let reason = match reply.status {
+        200 => "OK",
+        400 => "Bad Request",
+        401 => "Unauthorized",
+        404 => "Not Found",
+        429 => "Too Many Requests",
+        500 => "Internal Server Error",
+        503 => "Service Unavailable",
+        _ => "Status",
+    };
+    let mut head = format!(
+        "HTTP/1.1 {} {}\r\ncontent-type: {}\r\nconnection: close\r\n",
+        reply.status, reason, reply.content_type
+    );
+    if reply.content_length {
+        head.push_str(&format!("content-length: {}\r\n", body.len()));
+    } else {
+        head.push_str("transfer-encoding: chunked\r\n");
+    }
+    head.push_str("\r\n");
+    stream.write_all(head.as_bytes())?;
+    stream.flush()?;
+    if reply.headers_only {
+        std::thread::sleep(Duration::from_millis(5));
+        return Ok(());
+    }
+    if reply.content_length {
+        let upto = reply.reset_after.unwrap_or(body.len()).min(body.len());
+        stream.write_all(&body[..upto])?;
+        stream.flush()?;
+        return Ok(());
+    }
+    let mut sent = 0usize;
+    let mut sizes = reply.chunks.clone();
+    let mut idx = 0;
+    while sent < body.len() {
+        let want = if idx < sizes.len() { sizes[idx].max(1) } else { body.len() - sent };
+        let mut n = want.min(body.len() - sent);
+        let mut stop_after = false;
+        if let Some(limit) = reply.reset_after {
+            if sent + n >= limit {
+                n = limit.saturating_sub(sent);
+                stop_after = true;
+            }
+        }
+        if n > 0 {
+            let chunk = &body[sent..sent + n];
+            let mut frame = format!("{:x}\r\n", chunk.len()).into_bytes();
+            frame.extend_from_slice(chunk);
+            frame.extend_from_slice(b"\r\n");
+            stream.write_all(&frame)?;
+            stream.flush()?;
+            sent += n;
+        }
+        if stop_after {
+            // abrupt close mid-body
+            return Ok(());
+        }
+        idx += 1;
+        if reply.pause_us > 0 && sent < body.len() {
+            std::thread::sleep(Duration::from_micros(reply.pause_us));
+        }
+    }
+    if let Some(0) = reply.reset_after {
+        return Ok(());
+    }
+    sizes.clear();
+    stream.write_all(b"0\r\n\r\n")?;
+    stream.flush()?;
+    // let the client read before the socket goes away
+    let _ = stream.shutdown(std::net::Shutdown::Write);
+    let mut sink = [0u8; 256];
+    let _ = stream.set_read_timeout(Some(Duration::from_millis(200)));
+    let _ = stream.read(&mut sink);
+    Ok(())
+}
+
+// ---------------------------------------------------------------------------------------------
+// SSE body builders for OpenResponses-style streams
+
+pub fn sse_event(v: &Value) -> String {
+    let ty = v.get("type").and_then(|x| x.as_str()).unwrap_or("message");
+    format!("event: {ty}\ndata: {}\n\n", serde_json::to_string(v).unwrap_or_default())
+}
+
+pub fn sse_done() -> String {
+    "data: [DONE]\n\n".to_string()
+}
+
+pub fn ev_text_delta(seq: u64, item_id: &str, delta: &str) -> Value {
+    json!({"type":"response.output_text.delta","sequence_number":seq,"item_id":item_id,"output_index":0,
+           "content_index":0,"delta":delta,"logprobs":[]})
+}
+
+pub fn response_resource(id: &str, status: &str, output: Value) -> Value {
+    // same field set as fixtures/openresponses/*.sse in the repository
+    json!({
+        "background": false, "completed_at": null, "created_at": 0, "error": null, "frequency_penalty": 0,
+        "id": id, "incomplete_details": null, "instructions": null, "max_output_tokens": null,
+        "max_tool_calls": null, "metadata": {}, "model": "fixture-model", "object": "response",
+        "output": output, "parallel_tool_calls": false, "presence_penalty": 0,
+        "previous_response_id": null, "prompt_cache_key": null, "reasoning": null,
+        "safety_identifier": null, "service_tier": "", "status": status, "store": false, "temperature": 0,
+        "text": {"format": {"type": "text"}}, "tool_choice": "auto", "tools": [], "top_logprobs": 0,
+        "top_p": 0, "truncation": "auto", "usage": null, "user": null
+    })
+}
+
+pub fn ev_created(seq: u64, resp_id: &str) -> Value {
+    json!({"type":"response.created","sequence_number":seq,"response":response_resource(resp_id,"in_progress",json!([]))})
+}
+
+pub fn ev_completed(seq: u64, resp_id: &str, output: Value) -> Value {
+    json!({"type":"response.completed","sequence_number":seq,"response":response_resource(resp_id,"completed",output)})
+}
+
+pub fn function_call_item(item_id: Option<&str>, call_id: &str, name: &str, arguments: &str, status: &str) -> Value {
+    let mut v = json!({"type":"function_call","call_id":call_id,"name":name,"arguments":arguments,"status":status});
+    if let Some(id) = item_id {
+        v["id"] = json!(id);
+    }
+    v
+}
+
+pub fn ev_item_added(seq: u64, output_index: u64, item: Value) -> Value {
+    json!({"type":"response.output_item.added","sequence_number":seq,"output_index":output_index,"item":item})
+}
+
+pub fn ev_item_done(seq: u64, output_index: u64, item: Value) -> Value {
+    json!({"type":"response.output_item.done","sequence_number":seq,"output_index":output_index,"item":item})
+}
+
+pub fn ev_args_delta(seq: u64, item_id: &str, output_index: u64, delta: &str) -> Value {
+    json!({"type":"response.function_call_arguments.delta","sequence_number":seq,"item_id":item_id,
+           "output_index":output_index,"delta":delta})
+}
+
+pub fn ev_args_done(seq: u64, item_id: &str, output_index: u64, arguments: &str) -> Value {
+    json!({"type":"response.function_call_arguments.done","sequence_number":seq,"item_id":item_id,
+           "output_index":output_index,"arguments":arguments})
+}
+
+// ---------------------------------------------------------------------------------------------
+// stand-alone mode
+
+/// `rv provider --script F --record R --port-file P`
+/// script JSON: {"replies":[{...}], "default": {...}} with keys status, body, content_type,
+/// chunk (uniform chunk size), pause_us, echo_request, reset_after, content_length.
+pub fn standalone(args: &[String]) -> i32 {
+    let mut script_path = None;
+    let mut record_path = None;
+    let mut port_file = None;
+    let mut i = 0;
+    while i < args.len() {
+        match args[i].as_str() {
+            "--script" => {
+                i += 1;
+                script_path = args.get(i).cloned();
+            }
+            "--record" => {
+                i += 1;
+                record_path = args.get(i).cloned();
+            }
+            "--port-file" => {
+                i += 1;
+                port_file = args.get(i).cloned();
+            }
+            _ => {}
+        }
+        i += 1;
+    }
+    let script_json: Value = script_path
+        .and_then(|p| std::fs::read(p).ok())
+        .and_then(|b| serde_json::from_slice(&b).ok())
+        .unwrap_or(json!({}));
+    let record_path = record_path.unwrap_or_else(|| "/dev/null".to_string());
+    let rp = record_path.clone();
+    let script: Script = Arc::new(move |rec: &Recorded| {
+        // append the request to the record file (JSON lines)
+        let line = json!({
+            "index": rec.index, "method": rec.method, "path": rec.path,
+            "headers": rec.headers.iter().map(|(k, v)| json!([k, v])).collect::<Vec<_>>(),
+            "body": String::from_utf8_lossy(&rec.body),
+        });
+        if let Ok(mut f) = std::fs::OpenOptions::new().create(true).append(true).open(&rp) {
+            let _ = writeln!(f, "{}", line);
+        }
+        let spec = script_json
+            .get("replies")
+            .and_then(|r| r.as_array())
+            .and_then(|a| a.get(rec.index))
+            .cloned()
+            .or_else(|| script_json.get("default").cloned())
+            .unwrap_or(json!({}));
+        reply_from_spec(&spec)
+    });
+    let p = Provider::start(script);
+    if let Some(pf) = port_file {
+        let _ = std::fs::write(pf, p.addr.port().to_string());
+    }
+    println!("provider listening on {}", p.addr);
+    // run until killed
+    loop {
+        std::thread::sleep(Duration::from_secs(3600));
+    }
+}
+
+pub fn reply_from_spec(spec: &Value) -> Reply {
+    let status = spec.get("status").and_then(|x| x.as_u64()).unwrap_or(200) as u16;
+    let body = spec
+        .get("body")
+        .and_then(|x| x.as_str())
+        .map(|s| s.as_bytes().to_vec())
+        .unwrap_or_else(|| {
+            let mut s = String::new();
+            s.push_str(&sse_event(&ev_created(0, "resp_1")));
+            s.push_str(&sse_event(&ev_text_delta(1, "msg_1", "hello")));
+            s.push_str(&sse_event(&ev_completed(2, "resp_1", json!([]))));
+            s.push_str(&sse_done());
+            s.into_bytes()
+        });
+    let mut r = if status == 200 { Reply::sse(body) } else { Reply::status(status, body) };
+    if let Some(ct) = spec.get("content_type").and_then(|x| x.as_str()) {
+        r.content_type = ct.to_string();
+    }
+    if let Some(c) = spec.get("chunk").and_then(|x| x.as_u64()) {
+        let n = (r.body.len() / (c.max(1) as usize)) + 1;
+        r.chunks = vec![c.max(1) as usize; n];
+        r.content_length = false;
+    }
+    r.pause_us = spec.get("pause_us").and_then(|x| x.as_u64()).unwrap_or(0);
+    r.echo_request = spec.get("echo_request").and_then(|x| x.as_bool()).unwrap_or(false);
+    r.reset_after = spec.get("reset_after").and_then(|x| x.as_u64()).map(|x| x as usize);
+    if let Some(cl) = spec.get("content_length").and_then(|x| x.as_bool()) {
+        r.content_length = cl;
+    }
+    r
+}
